@@ -59,7 +59,20 @@ Theorem C10_composition_unobservable : forall (A : Type) L (d0 : A) dshape (f : 
 Proof. intros A L d0 dshape f gs vs j. exact (remapn_unobservable L d0 dshape f gs vs j). Qed.
 Print Assumptions C10_composition_unobservable.
 
+(* an EMPTY view (some extent is 0, e.g. an empty slice): the result has the view's shape and no cell, as the Spec buffer *)
+Theorem C10_eval_empty_result : forall (A : Type) (v : view A) L (d : A) init,
+  Forall (fun n => 0 <= n) (vshape v) -> prod (vshape v) = 0 ->
+  let r := eval_default v (fun _ s => fresh L d s) init in
+  ashape r = vshape v /\ abuf r = [] /\ spec_buffer RowMajor v = [].
+Proof. intros A v L d init. exact (eval_empty v L d init). Qed.
+Print Assumptions C10_eval_empty_result.
+
 (* ---------- non-vacuity ---------- *)
+Example C10_empty_nonvacuous :
+  let v := {| vshape := [3;0;2]; vget := fun _ => 5 |} in
+  ashape (eval_default v (fun _ s => fresh ColMajor 0 s) (fresh RowMajor 0 [1])) = [3;0;2].
+Proof. reflexivity. Qed.
+
 Example C10_nonvacuous :
   let v := {| vshape := [2;3]; vget := fun i => 10 * znth i 0 + znth i 1 |} in
   abuf (eval_into v (fresh RowMajor 0 [2;3])) = [0;1;2;10;11;12]
